@@ -233,7 +233,10 @@ def execute(cfg, V):
                                 {'type': 'complex_voltage_source', 'id': 'V1', 'nodes': ('1', '0'), 'value': {'V': z, 'Z': z * 3}}]}
         doc = C17.DOCS['deep'](z, z * 2, V.val('x', 'r'))
         pol = {'abs': V.val('a', 'pos'), 'phase': V.val('pd', 'ang')}
-        watch(desc=desc, cdesc=cdesc, doc=doc, pol=pol)
+        # a description written in the degree polar notation, nested in dictionaries and lists
+        pdoc = {'Z': {'abs': V.val('a', 'pos'), 'phase_deg': V.val('pd', 'ang')}, 'inner': {'Y': {'abs': V.val('a2', 'pos'), 'phase_deg': V.val('pd2', 'ang')}, 'n': V.val('x', 'r')},
+                'list': [{'abs': V.val('a', 'pos'), 'phase': V.val('p', 'ang')}, {'abs': V.val('a2', 'pos'), 'phase_deg': V.val('pd', 'ang')}, 3]}
+        watch(desc=desc, cdesc=cdesc, doc=doc, pol=pol, pdoc=pdoc)
         fns = {
             'load_network': lambda: _net(loaders.load_network(desc)),
             'load_circuit': lambda: [c for c in cdl.undictify_circuit(cdesc).components],
@@ -242,6 +245,7 @@ def execute(cfg, V):
             'load_dictify': lambda: dl.dictify_all_complex_values(doc),
             'load_undictify': lambda: dl.undictify_all_complex_values(dl.dictify_all_complex_values(doc)),
             'load_dictify_circuit': lambda: cdl.dictify_circuit(cdl.undictify_circuit(cdesc)),
+            'load_undictify_polar': lambda: [dl.undictify_all_complex_values(pdoc), dl.undictify_complex_values(pdoc)],
         }
         other = lambda: _net(loaders.load_network([{'type': 'resistor', 'id': 'Q', 'N1': 'x', 'N2': '0', 'R': V.val('q', 'r')}]))
     else:
@@ -268,7 +272,7 @@ def _ssm(m):
     return [m.A, m.B, m.C, m.D]
 
 
-OPS = ['cir_time_reuse', 'cir_complex_reuse', 'net_solve', 'net_remove_short', 'net_remove_short_keep', 'net_remove_open', 'net_short_circuitify', 'net_open_circuitify', 'net_remove_ideal_cs',
+OPS = ['load_undictify_polar', 'cir_time_reuse', 'cir_complex_reuse', 'net_solve', 'net_remove_short', 'net_remove_short_keep', 'net_remove_open', 'net_short_circuitify', 'net_open_circuitify', 'net_remove_ideal_cs',
        'net_remove_ideal_vs', 'net_passive', 'net_switch_ground', 'net_remove_element', 'net_port_impedance', 'net_element_impedance', 'net_open_circuit_voltage',
        'cir_transform', 'cir_transform_default', 'cir_frequency_components', 'cir_dc', 'cir_complex', 'cir_time', 'cir_frequency', 'cir_transient', 'cir_state_space',
        'cir_state_space_defaults', 'cir_nodal_state_space', 'cir_impedance',
